@@ -342,7 +342,6 @@ static int build_image (rq_image *im, vf_rng *r, int role)
     }
     if (!im->img) return 0;
     if (im->kind == RQ_BITS && rp_is_indexed (im->fmt)) { im->palette = rq_make_palette (im->fmt, im->pixseed); if (!im->palette) return 0; pixman_image_set_indexed (im->img, im->palette); }
-    if (im->kind == RQ_SOLID) { if (im->ca) pixman_image_set_component_alpha (im->img, 1); return 1; }
     if (role == 2 && im->repeat != PIXMAN_REPEAT_NONE) pixman_image_set_repeat (im->img, im->repeat);   /* a repeat on a destination only affects its opacity flags */
     if (role != 2) {
         if (im->tr_class != TR_NONE) pixman_image_set_transform (im->img, &im->tr);
@@ -356,8 +355,8 @@ static int build_image (rq_image *im, vf_rng *r, int role)
         pixman_region32_t reg; pixman_region32_init_rects (&reg, im->clip, im->n_clip);
         pixman_image_set_clip_region32 (im->img, &reg);
         pixman_region32_fini (&reg);
-        if (role != 2 && !im->has_client_clip_only) pixman_image_set_has_client_clip (im->img, 1);
     }
+    if (role != 2) pixman_image_set_has_client_clip (im->img, !im->has_client_clip_only);   /* always, so that the flag follows the record even when a clip arrives later */
     if (im->alpha_map && im->kind == RQ_BITS) {
         if (!vf_buf_alloc (&im->abuf, PIXMAN_a8, im->am_w, im->am_h, 0, 0, vf_default_place (r))) return 0;
         fill_pixels (&im->abuf, im->pixseed ^ 0xa1fa, 0);
